@@ -46,9 +46,37 @@ def with_observers(bid, declarer):
     return (bid + declarer) % 2 == 0
 
 
+def second_table(bid, declarer):
+    """The other half of the boards are played at TWO tables in lockstep (a duplicate match in one process): the same deal,
+    declarer and playing choices under a contract in another denomination; each table must obey the laws on its own."""
+    if with_observers(bid, declarer):
+        return None
+    return (bid // 5) * 5 + (bid % 5 + 1 + (bid // 5 + declarer) % 4) % 5
+
+
 def _board(bid, owner, declarer, dbl, vul, plays, stats=None):
+    try:
+        return _board1(bid, owner, declarer, dbl, vul, plays, stats)
+    except Violation as v:
+        if second_table(bid, declarer) is not None:
+            v.case = dict(v.case, two_tables={'bid': bid, 'declarer': declarer, 'dbl': dbl, 'vul': vul, 'owner': list(owner),
+                                              'plays': [list(x) for x in plays]})
+        raise
+
+
+def _board1(bid, owner, declarer, dbl, vul, plays, stats=None):
     b = PL.Board(owner, (bid, declarer, dbl, vul), observers=with_observers(bid, declarer))
     cards, revokes = PL.script_cards(owner, declarer, bid % 5, plays)
+    bid2 = second_table(bid, declarer)
+    b2 = cards2 = None
+    if bid2 is not None:
+        # a board abandoned in the middle of a trick (the session was stopped): it must not matter to the boards that follow
+        b0 = PL.Board(owner, (bid2, (declarer + 1) % 4, 0, vul))
+        for c in PL.script_cards(owner, (declarer + 1) % 4, bid2 % 5, plays)[0][:1 + bid % 3]:
+            b0.play(c)
+        b2 = PL.Board(owner, (bid2, declarer, dbl, vul))
+        cards2 = PL.script_cards(owner, declarer, bid2 % 5, plays)[0]
+        b2.check_laws()
     case0 = b.case()
     check(b.env.leader is be.SEAT[(declarer + 1) % 4] and b.env.dummy is be.SEAT[(declarer + 2) % 4],
           'opening lead / dummy', case0, {'leader': repr(b.env.leader), 'dummy': repr(b.env.dummy)})
@@ -69,6 +97,10 @@ def _board(bid, owner, declarer, dbl, vul, plays, stats=None):
                 stats.cls('refused plays offered in between')
         b.play(c)
         b.check_laws()
+        if b2 is not None:
+            b2.play(cards2[i], 'second table:')
+            b2.check_laws()
+            b.check_laws()
         if stats is not None:
             stats.evaluated()
             if i % 4 == 3:
@@ -82,6 +114,10 @@ def _board(bid, owner, declarer, dbl, vul, plays, stats=None):
     if stats is not None:
         if b.obs is not None:
             stats.cls('boards also followed by four single-seat observers')
+        if b2 is not None:
+            stats.cls('boards played at two tables in lockstep (same deal and choices, another denomination), after an abandoned board')
+            if cards2[:4] == cards[:4] and trick_kind(cards[:4], bid % 5)[0] != trick_kind(cards[:4], bid2 % 5)[0]:
+                stats.cls('two tables: identical first trick won by different seats')
         if revokes:
             stats.cls('boards with >=1 revoke')
         for f in PL.deal_features(owner):
@@ -141,6 +177,10 @@ def replay(rec):
     try:
         if 'single_trick' in c:
             _trick(_parse_cards(c['single_trick']), A.STRAINS.index(c['strain']), A.SEATS.index(c['declarer']), 1)
+            return None
+        if 'two_tables' in c:
+            t = c['two_tables']
+            _board(t['bid'], t['owner'], t['declarer'], t['dbl'], t['vul'], [tuple(x) for x in t['plays']])
             return None
         return replay_board(c, lambda b: b.check_laws())
     except Violation as v:
